@@ -304,6 +304,17 @@ def invalid_calls(cls, kind, n, rng, full=True):
     if n > 0:
         calls.append(f"resize 0 {n - 1}")
         calls.append("resize 0 0")
+    if cls in SIMPLE:
+        for bv in bad:
+            calls += [f"bfs 0 {bv}", f"allpred 0 {bv}", f"geodesicsfrom 0 {bv}", f"allgeodesicsfrom 0 {bv}",
+                      f"geodesic 0 {bv} {ok[0]}", f"geodesic 0 {ok[0]} {bv}", f"geodesic 0 {bv} {bv}",
+                      f"allgeodesics 0 {bv} {ok[0]}", f"allgeodesics 0 {ok[0]} {bv}", f"allgeodesics 0 {bv} {bv}",
+                      f"subgraph 0 5 S {bv}", f"subgraphremap 0 6 S {bv}"]
+            if n > 0:
+                calls += [f"subgraph 0 5 S 0 {bv}", f"subgraphremap 0 6 S {bv} 0"]
+    if cls in WEIGHTED:
+        for bv in bad:
+            calls.append(f"dijkstra 0 {bv}")
     if not full:
         rng.shuffle(calls)
         calls = calls[:12]
@@ -529,9 +540,196 @@ def wl_C16(tier, rng):
         yield ({"cls": cls, "kind": "-", "n": n, "len": len(ops)}, ops)
 
 
+# ------------------------------------------------------------------ C11 / C12 / C19: path searches
+def graph_by_ctor(cls, kind, n, es, slot=0):
+    """one `ctor` line building the graph (size n enforced by a preceding resize when needed)"""
+    trip = " ".join(f"{i} {j} 1" for (i, j) in es)
+    ops = [f"ctor {slot} {cls} {kind} vector {trip}".rstrip()]
+    m = (max(max(i, j) for (i, j) in es) + 1) if es else 0
+    if m < n:
+        ops.append(f"resize {slot} {n}")
+    return ops
+
+
+def algo_ops(n, rng=None, all_pairs=True, max_pairs=6):
+    ops = []
+    for s in range(n):
+        ops += [f"bfs 0 {s}", f"allpred 0 {s}", f"geodesicsfrom 0 {s}", f"allgeodesicsfrom 0 {s}"]
+    pairs = [(s, t) for s in range(n) for t in range(n)]
+    if not all_pairs and rng is not None and len(pairs) > max_pairs:
+        pairs = rng.sample(pairs, max_pairs)
+    for (s, t) in pairs:
+        ops += [f"geodesic 0 {s} {t}", f"allgeodesics 0 {s} {t}"]
+    return ops
+
+
+def layered(width, layers, und=False, back=False):
+    """source 0, then `layers` layers of `width` vertices, complete between consecutive layers:
+    width^layers shortest paths to the last layer"""
+    es = []
+    n = 1 + width * layers
+    def vid(l, k): return 1 + l * width + k
+    for k in range(width):
+        es.append((0, vid(0, k)))
+    for l in range(layers - 1):
+        for a in range(width):
+            for b in range(width):
+                es.append((vid(l, a), vid(l + 1, b)))
+    if back:
+        es.append((vid(layers - 1, 0), 0))
+    return n, es
+
+
+def grid(w, h):
+    es = []
+    def vid(x, y): return y * w + x
+    for y in range(h):
+        for x in range(w):
+            if x + 1 < w: es.append((vid(x, y), vid(x + 1, y)))
+            if y + 1 < h: es.append((vid(x, y), vid(x, y + 1)))
+    return w * h, es
+
+
+def wl_C11(tier, rng):
+    # exhaustive: every directed graph on <= 3 vertices (quick) / 4 (thorough), every undirected one on <= 4 / 5
+    for cls in SIMPLE:
+        und = cls == "und"
+        top = scale(tier, 4 if und else 3, 5 if und else 4)
+        for n in range(0, top + 1):
+            pairs = [(i, j) for i in range(n) for j in range(n) if (not und or i <= j)]
+            total = 1 << len(pairs)
+            limit = scale(tier, 1200, 70000)
+            masks = range(total) if total <= limit else [rng.randrange(total) for _ in range(limit)]
+            for mask in masks:
+                es = [p for b, p in enumerate(pairs) if mask >> b & 1]
+                rng.shuffle(es)
+                ops = ["mode quiet"] + graph_by_ctor(cls, "none", n, es) + algo_ops(n)
+                yield ({"cls": cls, "kind": "none", "n": n, "len": len(ops), "exh": total <= limit}, ops)
+    # sampled 4-vertex digraphs / 5-vertex undirected graphs in the quick tier, random larger ones in both
+    for _ in range(scale(tier, 1500, 20000)):
+        cls = rng.choice(SIMPLE)
+        kind = rng.choice(["none", "int", "str"])
+        n = rng.randint(1, scale(tier, 10, 30))
+        es = rand_edges(rng, n, density=rng.choice([0.05, 0.1, 0.2, 0.4]))
+        ops = ["mode quiet"] + graph_by_ctor(cls, kind, n, es) + algo_ops(n if n <= 5 else 0)
+        if n > 5:
+            for s in rng.sample(range(n), min(n, 3)):
+                ops += [f"bfs 0 {s}", f"allpred 0 {s}", f"geodesicsfrom 0 {s}"]
+                if n <= 14:
+                    ops.append(f"allgeodesicsfrom 0 {s}")
+                t = rng.randrange(n)
+                ops += [f"geodesic 0 {s} {t}", f"allgeodesics 0 {s} {t}" if n <= 14 else f"geodesic 0 {t} {s}"]
+        yield ({"cls": cls, "kind": kind, "n": n, "len": len(ops)}, ops)
+    # layered graphs (many ties / many shortest paths)
+    for width in (2, 3):
+        for layers in range(1, scale(tier, 5, 7) if width == 2 else scale(tier, 3, 4)):
+            for cls in SIMPLE:
+                n, es = layered(width, layers, back=(layers % 2 == 0))
+                ops = ["mode quiet"] + graph_by_ctor(cls, "none", n, es)
+                ops += ["bfs 0 0", "allpred 0 0", f"geodesic 0 0 {n-1}", f"allgeodesics 0 0 {n-1}", "geodesicsfrom 0 0", "allgeodesicsfrom 0 0"]
+                yield ({"cls": cls, "kind": "none", "n": n, "len": len(ops), "family": "layered"}, ops)
+
+
+def weighted_ops(cls, n, wes, slot=0):
+    ops = ["mode quiet", gen.new_line(slot, cls, "-", n)]
+    for (i, j, w) in wes:
+        ops.append(f"addEdge {slot} {i} {j} {w} 0")
+    return ops
+
+
+def wl_C12(tier, rng):
+    alpha = [0, 1, 2, 4, 8]   # quarter units: 0, 1/4, 1/2, 1, 2
+    for cls in WEIGHTED:
+        und = cls == "uw"
+        for n in scale(tier, [1, 2, 3], [1, 2, 3, 4]):
+            pairs = [(i, j) for i in range(n) for j in range(n) if (not und or i <= j)]
+            total = (len(alpha) + 1) ** len(pairs)
+            limit = scale(tier, 1500, 60000)
+            for k in (range(total) if total <= limit else range(limit)):
+                code = k if total <= limit else rng.randrange(total)
+                wes = []
+                for p in pairs:
+                    code, d = divmod(code, len(alpha) + 1)
+                    if d:
+                        wes.append((p[0], p[1], alpha[d - 1]))
+                rng.shuffle(wes)
+                ops = weighted_ops(cls, n, wes) + [f"dijkstra 0 {s}" for s in range(n)]
+                yield ({"cls": cls, "kind": "-", "n": n, "len": len(ops), "exh": total <= limit}, ops)
+    for _ in range(scale(tier, 1500, 30000)):
+        cls = rng.choice(WEIGHTED)
+        n = rng.randint(1, scale(tier, 10, 20))
+        es = rand_edges(rng, n, density=rng.choice([0.1, 0.2, 0.4, 0.7]))
+        if cls == "uw":
+            es = und_canon(es)
+        wmax = rng.choice([1, 4, 16, 40])
+        wes = [(i, j, rng.choice([0, 0, rng.randint(0, wmax), rng.randint(0, wmax)])) for (i, j) in es]
+        ops = weighted_ops(cls, n, wes) + [f"dijkstra 0 {s}" for s in rng.sample(range(n), min(n, 4))]
+        yield ({"cls": cls, "kind": "-", "n": n, "len": len(ops)}, ops)
+    # zero-weight cycles
+    for n in range(2, scale(tier, 8, 16)):
+        for cls in WEIGHTED:
+            wes = [(i, (i + 1) % n, 0) for i in range(n)] + [(0, n // 2, 4)]
+            ops = weighted_ops(cls, n, wes) + [f"dijkstra 0 {s}" for s in range(n)]
+            yield ({"cls": cls, "kind": "-", "n": n, "len": len(ops), "family": "zero-cycle"}, ops)
+
+
+def wl_C19(tier, rng):
+    # families with exponentially many shortest paths
+    for width in (2, 3, 4):
+        top = scale(tier, 12, 40) if width == 2 else scale(tier, 6, 14)
+        for layers in range(1, top + 1):
+            for cls in SIMPLE:
+                n, es = layered(width, layers, back=(layers % 3 == 0))
+                ops = ["mode quiet"] + graph_by_ctor(cls, "none", n, es)
+                ops += ["bfs 0 0", "allpred 0 0", f"bfs 0 {n-1}", f"allpred 0 {n-1}", f"allpred 0 {n//2}"]
+                yield ({"cls": cls, "kind": "none", "n": n, "len": len(ops), "family": f"layered{width}"}, ops)
+    for w in range(2, scale(tier, 5, 8)):
+        for h in range(2, scale(tier, 5, 8)):
+            for cls in SIMPLE:
+                n, es = grid(w, h)
+                ops = ["mode quiet"] + graph_by_ctor(cls, "none", n, es) + ["bfs 0 0", "allpred 0 0", f"allpred 0 {n-1}"]
+                yield ({"cls": cls, "kind": "none", "n": n, "len": len(ops), "family": "grid"}, ops)
+            # weighted grids: unit weights (many ties) and zero weights
+            for cls in WEIGHTED:
+                n, es = grid(w, h)
+                for wt in (4, 0):
+                    wes = [(i, j, wt) for (i, j) in es]
+                    ops = weighted_ops(cls, n, wes) + ["dijkstra 0 0", f"dijkstra 0 {n-1}"]
+                    yield ({"cls": cls, "kind": "-", "n": n, "len": len(ops), "family": "wgrid"}, ops)
+    # scan counts on all small graphs and random ones (same histories as C11/C12, fewer)
+    for cls in SIMPLE:
+        und = cls == "und"
+        for n in range(0, 4):
+            pairs = [(i, j) for i in range(n) for j in range(n) if (not und or i <= j)]
+            for mask in range(1 << len(pairs)):
+                es = [p for b, p in enumerate(pairs) if mask >> b & 1]
+                ops = ["mode quiet"] + graph_by_ctor(cls, "none", n, es)
+                for s in range(n):
+                    ops += [f"bfs 0 {s}", f"allpred 0 {s}"]
+                yield ({"cls": cls, "kind": "none", "n": n, "len": len(ops), "exh": True}, ops)
+    for _ in range(scale(tier, 800, 15000)):
+        if rng.random() < 0.5:
+            cls = rng.choice(SIMPLE)
+            n = rng.randint(1, scale(tier, 14, 40))
+            es = rand_edges(rng, n, density=rng.choice([0.05, 0.1, 0.3, 0.6]))
+            ops = ["mode quiet"] + graph_by_ctor(cls, "none", n, es)
+            for s in rng.sample(range(n), min(n, 4)):
+                ops += [f"bfs 0 {s}", f"allpred 0 {s}"]
+        else:
+            cls = rng.choice(WEIGHTED)
+            n = rng.randint(1, scale(tier, 12, 30))
+            es = rand_edges(rng, n, density=rng.choice([0.1, 0.3, 0.6]))
+            if cls == "uw":
+                es = und_canon(es)
+            wes = [(i, j, rng.choice([0, 0, 1, 4, rng.randint(0, 20)])) for (i, j) in es]
+            ops = weighted_ops(cls, n, wes) + [f"dijkstra 0 {s}" for s in rng.sample(range(n), min(n, 4))]
+        yield ({"cls": cls, "kind": "-", "n": n, "len": len(ops)}, ops)
+
+
 WORKLOADS = {
     "C01": wl_C01, "C02": wl_C02, "C03": wl_C03, "C04": wl_C04, "C05": wl_C05, "C06": wl_C06,
     "C07": wl_C07, "C08": wl_C08, "C09": wl_C09, "C10": wl_C10, "C16": wl_C16,
+    "C11": wl_C11, "C12": wl_C12, "C19": wl_C19,
 }
 
 # dump-line prefixes each property constrains (R = outcome lines incl. eq/query results)
@@ -547,4 +745,6 @@ PROJECTION = {
     "C09": ("R", "D", "N", "H", "L", "X", "W"),
     "C10": ("R", "D", "N", "H", "L"),
     "C16": ("R", "D", "N", "H", "E", "M", "O", "G", "X", "W"),
+    "C11": ("R", "P"),
+    "C12": ("R", "P"),
 }
